@@ -26,7 +26,7 @@ var Check = &ev.Check{
 	Rule: "inputs: (a) every byte string of length<=2 (quick) / <=3 (thorough) over all 256 byte values; (b) every string of length<=5 (quick) / <=6 (thorough) over the 16-symbol alphabet " +
 		"{00,01,02,03,04,06,08,0a,0b,0c,0d,0e,0f,7f,80,ff}; (c) every single-deviation mutant (truncate at i, set byte i to each symbol, set the 4 bytes at i to each of 7 length values, delete byte i, insert each symbol at i) " +
 		"of every encoding of the small depth-1 value set (quick) / the full depth-1 C02 set plus depth-2 representatives, and every pair of deviations on the small set (thorough). " +
-		"Each input x each of 13 requested types (11 valid, 0, 255; mutants: own type and struct) x {random-access ReadValue+force, Skip over a seeker, Skip and primitive walk over a non-seekable reader under chunkings whole/all-1-byte, " +
+		"Each input x each of 13 requested types (11 valid, 0, 255; mutants: own type and struct) x {random-access ReadValue+force (also behind a ReaderAt that returns the final bytes together with io.EOF), Skip over a seeker, Skip and primitive walk over a non-seekable reader under chunkings whole/all-1-byte, " +
 		"and all <=2-cut chunkings with and without zero-length reads when the decode succeeds or the input is <=4 bytes}. A case is (input, type); non-trivial = distinct (input,type) pairs, distinct by construction of the odometer (mutants deduplicated by content hash).",
 	Run: run,
 	Budget: func(t string) time.Duration {
@@ -190,6 +190,14 @@ func (r *runner) one(b []byte, t byte) {
 		}
 		if ref := tbin.Encode(mv); !bytes.Equal(ref, b[:off]) {
 			r.viol("ra-reencode-ref", b, t, "ReadValue", fmt.Sprintf("decoded %s consuming %d bytes; spec encoding of that value is %s", mv.Key(), off, hex.EncodeToString(ref)))
+		}
+		// the same bytes behind a ReaderAt that reports io.EOF together with the final bytes
+		// of the source (io.ReaderAt allows it): same value, same consumed length
+		rd3 := binary.NewReader(eofReaderAt{b})
+		if v3, off3, err3 := rd3.ReadValue(wt, 0); err3 != nil {
+			r.viol("ra-eof-with-data", b, t, "ReadValue", fmt.Sprintf("a ReaderAt that returns the last bytes together with io.EOF: ReadValue fails (%v); over a bytes.Reader it decodes %s", err3, mv.Key()))
+		} else if mv3, ferr3 := wirex.FromWire(v3); ferr3 != nil || mv3.Key() != mv.Key() || off3 != off {
+			r.viol("ra-eof-with-data", b, t, "ReadValue", fmt.Sprintf("a ReaderAt that returns the last bytes together with io.EOF: decoded %s err=%v consuming %d bytes; over a bytes.Reader %s consuming %d", mv3.Key(), ferr3, off3, mv.Key(), off))
 		}
 		w.Outcome("ra-ok")
 		if _, _, rerr := tbin.Decode(tt, b); rerr != nil {
@@ -563,4 +571,19 @@ func replay(r *runner, path string) {
 	r.w.Sample(f.First.Replay)
 	r.one(b, f.First.Replay.Type)
 	r.w.Outcome("replayed")
+}
+
+// eofReaderAt is a conforming io.ReaderAt that returns io.EOF together with the
+// final bytes of the source.
+type eofReaderAt struct{ b []byte }
+
+func (s eofReaderAt) ReadAt(p []byte, off int64) (int, error) {
+	if off >= int64(len(s.b)) {
+		return 0, io.EOF
+	}
+	n := copy(p, s.b[off:])
+	if n < len(p) || off+int64(n) == int64(len(s.b)) {
+		return n, io.EOF
+	}
+	return n, nil
 }
